@@ -12,7 +12,8 @@ to Coq data (coq/Gen/Signatures.v).  Per class, from the Python `ast` only:
 Whitelist for `__init__`: the `super().__init__(<own parameter names>, kw=<expr>, **<own kwargs>)` call must be a
 top-level statement; Device.__init__ must contain exactly `self._keys = [<str>...]` and `self._keys += list(<kwarg>.keys())`.
 Whitelist for `to_dict`: (a) `data = {k: getattr(self, k) for k in self._keys}` / `return data`; (b) `return {<str>: ..., ...}`;
-(c) `d = super().to_dict()` followed by `d.update({<str>: ...})` and/or `del d[<str>]`, `return d`.
+(c) `d = super().to_dict()` followed by `d.update({<str>: ...})`, `del d[<str>]`, `d[<str>] = <expr>` or
+`if <str> in d: d[<str>] = <expr>` (same key), then `return d`.
 Anything else raises Unsupported('translator:<file>:<line>:<node>:<why>').
 """
 import ast
@@ -182,6 +183,14 @@ class Sigs:
       fail(f, d, 'dictionary display with constant string keys expected')
     return [k.value for k in d.keys]
 
+  @staticmethod
+  def key_assign(s, var):
+    """d['k'] = <expr>  ->  'k'"""
+    if isinstance(s, ast.Assign) and len(s.targets) == 1 and isinstance(s.targets[0], ast.Subscript) and isinstance(s.targets[0].value, ast.Name) \
+       and s.targets[0].value.id == var and isinstance(s.targets[0].slice, ast.Constant) and isinstance(s.targets[0].slice.value, str):
+      return s.targets[0].slice.value
+    return None
+
   def dump(self, name):
     """-> (dump_keys: bool, added: [str], removed: [str]) of the effective to_dict of `name`"""
     owner, f, m = self.effective(name, 'to_dict')
@@ -230,6 +239,17 @@ class Sigs:
         if k in added:
           added.remove(k)
         removed.append(k)
+      elif self.key_assign(s, var) is not None:
+        k = self.key_assign(s, var)                 # d['k'] = <expr>: the key is dumped (its value is the implementation's business)
+        if k in removed:
+          removed.remove(k)
+        if k not in added:
+          added.append(k)
+      elif isinstance(s, ast.If) and not s.orelse and len(s.body) == 1 and self.key_assign(s.body[0], var) is not None \
+          and isinstance(s.test, ast.Compare) and len(s.test.ops) == 1 and isinstance(s.test.ops[0], ast.In) \
+          and isinstance(s.test.left, ast.Constant) and s.test.left.value == self.key_assign(s.body[0], var) \
+          and isinstance(s.test.comparators[0], ast.Name) and s.test.comparators[0].id == var:
+        pass                                        # if 'k' in d: d['k'] = <expr>: replaces a value, the key set is unchanged
       else:
         fail(f, s, 'statement in to_dict')
     return keys, added, removed
